@@ -66,7 +66,7 @@ impl StyleSheetTransformer {
         };
 
         {
-            parse_rules(&mut input, &mut this);
+            parse_rules(&mut input, &mut this, true);
         }
         this
     }
@@ -250,9 +250,21 @@ fn write_maybe_rpx_dimension(
     }
 }
 
-fn parse_rules(input: &mut StepParser, ss: &mut StyleSheetTransformer) {
+fn parse_rules(input: &mut StepParser, ss: &mut StyleSheetTransformer, top_level: bool) {
     let mut at_file_start = true;
     while !input.is_exhausted() {
+        if top_level {
+            // `<!--` and `-->` between the rules of a style sheet are ignored by CSS: they are
+            // not the start of the next rule (which may be an `@import` or a `:host` rule)
+            if let Ok(peek) = input.peek() {
+                if matches!(&*peek, Token::CDO | Token::CDC) {
+                    if let Ok(next) = input.next() {
+                        ss.append_token(next, input, None);
+                    }
+                    continue;
+                }
+            }
+        }
         if !parse_at_rule(input, ss, at_file_start) {
             parse_qualified_rule(input, ss);
         }
@@ -423,7 +435,7 @@ fn parse_at_rule(
                                     input
                                         .parse_nested_block::<_, (), ()>(|nested_input| {
                                             let input = &mut StepParser::wrap(nested_input);
-                                            parse_rules(input, ss);
+                                            parse_rules(input, ss, false);
                                             Ok(())
                                         })
                                         .ok();
